@@ -1,25 +1,48 @@
 #!/usr/bin/env python3
-"""Re-runs the registered checks against every kept seeded change (seeded/<id>/patch.diff applied to /repo and
-undone straight afterwards) and refreshes meta.json's caught_by; prints the changes the own property's check misses."""
-import json, os, sys
+"""Re-runs the registered checks against every kept seeded change and refreshes meta.json's caught_by; prints the
+changes the own property's check misses.  For speed each patch is applied to a scratch copy of /repo under /tmp
+(removed afterwards) and the checks are run with `--src <copy>`, eight patches in parallel; tools/build_seeded.py,
+which creates the entries, runs them the slow way (git -C /repo apply; ./check …; git -C /repo checkout -- .)."""
+import json, os, re, shutil, subprocess, sys, tempfile
+from concurrent.futures import ThreadPoolExecutor
 VERIF = os.path.dirname(os.path.dirname(os.path.abspath(__file__)))
-sys.path.insert(0, os.path.join(VERIF, "tools"))
-import seeded
 root = os.path.join(VERIF, "seeded")
 only = set(sys.argv[1:])
+props = sorted(f[:-3] for f in os.listdir(os.path.join(VERIF, "props")) if re.fullmatch(r"C\d+\.py", f))
+ids = [d for d in sorted(os.listdir(root)) if os.path.exists(os.path.join(root, d, "meta.json")) and (not only or d in only)]
+
+
+def one(d):
+    tmp = tempfile.mkdtemp(prefix="uflow-seeded-")
+    try:
+        dst = os.path.join(tmp, "repo")
+        shutil.copytree("/repo", dst, ignore=shutil.ignore_patterns("target", ".git"))
+        p = subprocess.run(["git", "apply", "--whitespace=nowarn", os.path.join(root, d, "patch.diff")], cwd=dst, stdout=subprocess.PIPE, stderr=subprocess.STDOUT, text=True)
+        if p.returncode != 0:
+            return d, {"error": p.stdout[-200:]}
+        fired = {}
+        env = dict(os.environ, VERIF_EVIDENCE_DIR=os.path.join(tmp, "ev"), VERIF_REPLAY_DIR=os.path.join(tmp, "rp"))
+        for pr in props:
+            r = subprocess.run([os.path.join(VERIF, "check"), pr, "quick", "--src", dst, "--target-dir", os.path.join(tmp, "tgt")], stdout=subprocess.PIPE, stderr=subprocess.STDOUT, text=True, env=env)
+            if r.returncode != 0:
+                insts = re.findall(r"rule .* instance (\S+) in (\S+)", r.stdout)
+                fired[pr] = sorted({"%s @ %s" % (i, f.split("::")[-1]) for i, f in insts}) or ["(exit %d)" % r.returncode]
+        return d, {"fired": fired}
+    finally:
+        shutil.rmtree(tmp, ignore_errors=True)
+
+
 missed = []
-for d in sorted(os.listdir(root)):
-    mp = os.path.join(root, d, "meta.json")
-    if not os.path.exists(mp) or (only and d not in only):
-        continue
-    m = json.load(open(mp))
-    res = seeded.check(os.path.join(root, d, "patch.diff"))
-    if "error" in res:
-        print(d, "ERROR", res["error"]); continue
-    m["caught_by"] = res["fired"]
-    m["caught_by_own_property_check"] = m["property"] in res["fired"]
-    json.dump(m, open(mp, "w"), indent=1)
-    print(d, "own" if m["caught_by_own_property_check"] else "MISSED-BY-OWN", {k: sorted({x.split(" @ ")[0] for x in v}) for k, v in res["fired"].items()}, flush=True)
-    if not m["caught_by_own_property_check"]:
-        missed.append(d)
+with ThreadPoolExecutor(max_workers=8) as ex:
+    for d, res in ex.map(one, ids):
+        if "error" in res:
+            print(d, "ERROR", res["error"]); continue
+        mp = os.path.join(root, d, "meta.json")
+        m = json.load(open(mp))
+        m["caught_by"] = res["fired"]
+        m["caught_by_own_property_check"] = m["property"] in res["fired"]
+        json.dump(m, open(mp, "w"), indent=1)
+        print(d, "own" if m["caught_by_own_property_check"] else "MISSED-BY-OWN", {k: sorted({x.split(" @ ")[0] for x in v}) for k, v in res["fired"].items()}, flush=True)
+        if not m["caught_by_own_property_check"]:
+            missed.append(d)
 print("missed by own property's check:", missed)
